@@ -707,7 +707,7 @@ func checkJava(c JavaCase) pbt.Verdict {
 		}
 	}
 	for _, mark := range [][2]string{{"/dto/Order.java", "java/simple_name_in_two_packages"}, {"/report/OrderService.java", "java/two_services_of_one_name"},
-		{"/SlowShipper.java", "java/interface_with_several_components"}, {"/ArchiveRepo.java", "java/subclass_calling_super"},
+		{"/ship/SlowShipper.java", "java/interface_with_several_components"}, {"/ArchiveRepo.java", "java/subclass_calling_super"},
 		{"/Jobs.java", "java/field_initialisers_anonymous_nested"}, {"/Huge0.java", "java/class_with_twenty_methods"}, {"/Huge1.java", "java/two_classes_with_twenty_methods"}} {
 		for _, f := range c.Files {
 			if strings.HasSuffix(f.Path, mark[0]) {
